@@ -10,6 +10,8 @@ import (
 	"strconv"
 	"strings"
 	"time"
+
+	"golang.org/x/tools/go/ssa"
 )
 
 type propFunc func(cx *Ctx, r *Report)
@@ -160,6 +162,29 @@ func doDump(cx *Ctx, what string) {
 					fmt.Printf("    %-9s %s\n", k, w.FuncKey(f))
 				}
 			}
+		}
+	case strings.HasPrefix(what, "vf:"):
+		// vf:<entryKey>:<Owner.Field>  or vf:<entryKey>:call:<calleeSubstring>:<argIdx>
+		parts := strings.SplitN(strings.TrimPrefix(what, "vf:"), ":", 2)
+		fn := w.Func(parts[0])
+		if fn == nil {
+			fmt.Println("no such function")
+			return
+		}
+		vf := cx.newVFlow(parts[0], fn)
+		if strings.HasPrefix(parts[1], "call:") {
+			q := strings.Split(strings.TrimPrefix(parts[1], "call:"), ":")
+			idx, _ := strconv.Atoi(q[1])
+			ls, sites := vf.CallArgSources(func(c ssa.CallInstruction) bool { return strings.Contains(calleeName(c), q[0]) }, idx)
+			fmt.Println(len(sites), "sites;", ls)
+			return
+		}
+		i := strings.LastIndex(parts[1], ".")
+		ls, sites := vf.FieldStoreSources(parts[1][:i], parts[1][i+1:])
+		ls = vf.Deep(ls)
+		fmt.Println(len(sites), "store sites")
+		for _, k := range ls.keys() {
+			fmt.Printf("   %s  fl=%d\n", k, ls[k])
 		}
 	case strings.HasPrefix(what, "facts:"):
 		fn := w.Func(strings.TrimPrefix(what, "facts:"))
